@@ -239,6 +239,14 @@ All failures of these functions are `ValueError`s, as the model says (`Err.value
 theorem tokens_are_lexer_tokens (parameters : String) :
     Py.FllIn.toks parseNum parameters = (Py.split parameters).map numTokOf := rfl
 
+/-- `to_float(x)` of a string is the reader `rd` of the theorems below (`settings.float_type(x)`): `ValueError` where it
+    reads no number -/
+theorem code_toFloat (rd : String → Option Num) (x : String) :
+    match rd x with
+    | none => Gen.Code.to_float.run rd x {} = .error .value
+    | some v => ∃ σ, Gen.Code.to_float.run rd x {} = .ok σ ∧ σ.ret = some v :=
+  Py.FllIn.code_toFloat rd x
+
 /-- `Term._parse(required, parameters, height=…)`: the values and the count check of `parseShape`; the list returned is
     the parameters followed by the height (1 when it is optional and absent) -/
 theorem code_termParse (rd : String → Option Num) (required : ℕ) (parameters : String) (height : Bool) :
